@@ -1,5 +1,6 @@
 import QcoVerif.Properties.C19
 import QcoVerif.Lemmas.TimingSrc
+import QcoVerif.Lemmas.UniqSrc
 /-
   C19 — tie to the SOURCE TEXT (DESIGN.md §2.3b).  Kept in a file of its own that nothing imports: a change of the translated
   source functions breaks THESE obligations only, not the build of the property files that import Properties/C19.lean.
@@ -43,5 +44,12 @@ theorem edge_eq_matches_source (e f : EdgeId) (i j : Nat) :
 
 end SourceTie
 
+
+/-- **`unique_in_order` as written** (the loop over a growing `seen` set) keeps, for every list of integers, the first occurrence of
+    every element in order: it returns the model's `uniqueInOrder`.  (The set is the list of the elements added — membership by `==`;
+    that `hash` agrees with `==` on the identifiers is `edge_eq_hash`, `qubit_eq_hash` above.) -/
+theorem unique_in_order_matches_source (l : List Int) :
+    Py.callFn {} Gen.PySrc.Util_unique_in_order [Py.ints l] = Py.ints (uniqueInOrder l) := by
+  rw [UniqSrc.unique_in_order_matches_source, uniqueLoop_eq_uniqueInOrder]
 
 end Qco.C19
